@@ -248,6 +248,14 @@ def gen_kani_table(workdir):
     L.append('pub fn yaml_byte_index(b: u8) -> usize { match b {')
     L += idx_arms
     L.append('    _ => usize::MAX } }')
+    L.append('pub fn yaml_flag_by_index(ix: usize) -> u8 { match ix {')
+    k = 0
+    for g, ops in groups:
+        for o in ops:
+            if flags.get((g, o['name'])):
+                L.append('    %d => %d,' % (k, flags[(g, o['name'])]))
+            k += 1
+    L.append('    _ => 0 } }')
     L.append('#[allow(unreachable_patterns)] pub fn yaml_index(op: &asm::Op) -> Option<usize> { match *op {')
     L += op_arms
     L.append('    _ => None } }')
